@@ -153,4 +153,50 @@ def processNoise (fixed : Bool) (dims : List Nat) (noises : List NoiseSpec) (t1 
     let extra := if t1 ≠ .none ∨ t2 ≠ .none then [NoiseSpec.relax t1 t2 none] else []
     collect fixed dims (noises ++ extra)
 
+/-! ## Variant with `fixes/C15-3.patch`: `_T_to_list` checks every entry of a list
+
+`strict = true` models `_T_to_list` with the entry check (a list of the right length is accepted only if every entry is `None`
+or positive); `strict = false` is the code as shipped (`tToList`, entries unchecked). -/
+
+def entriesPos (l : List (Option Frac)) : Bool :=
+  l.all fun
+    | none => true
+    | some q => q.isPos
+
+def tToListS (strict : Bool) (T : TSpec) (N : Nat) : Except Err (List (Option Frac)) :=
+  match T with
+  | .list l => if l.length = N then (if strict && !entriesPos l then .error .invalidT else .ok l) else .error .invalidT
+  | T => tToList T N
+
+def relaxationOpsS (strict fixed : Bool) (dims : List Nat) (t1 t2 : TSpec) (targets : Option (List Nat)) :
+    Except Err (List COp) :=
+  let N := dims.length
+  match tToListS strict t1 N with
+  | .error e => .error e
+  | .ok l1 =>
+    match tToListS strict t2 N with
+    | .error e => .error e
+    | .ok l2 => loopTargets fixed dims l1 l2 (targets.getD (List.range N))
+
+def noiseOpsS (strict fixed : Bool) (dims : List Nat) : NoiseSpec → Except Err (List COp)
+  | .relax t1 t2 tg => relaxationOpsS strict fixed dims t1 t2 tg
+  | x => noiseOps fixed dims x
+
+def collectS (strict fixed : Bool) (dims : List Nat) : List NoiseSpec → Except Err (List COp)
+  | [] => .ok []
+  | x :: xs =>
+    match noiseOpsS strict fixed dims x with
+    | .error e => .error e
+    | .ok ops =>
+      match collectS strict fixed dims xs with
+      | .error e => .error e
+      | .ok rest => .ok (ops ++ rest)
+
+def processNoiseS (strict fixed : Bool) (dims : List Nat) (noises : List NoiseSpec) (t1 t2 : TSpec)
+    (deviceNoise : Bool) : Except Err (List COp) :=
+  if !deviceNoise then .ok []
+  else
+    let extra := if t1 ≠ .none ∨ t2 ≠ .none then [NoiseSpec.relax t1 t2 none] else []
+    collectS strict fixed dims (noises ++ extra)
+
 end QipVerif.Noise
